@@ -17,6 +17,7 @@ type Pair struct {
 	impl  *Proc
 	model *Proc
 	joins int
+	env   *Env
 }
 
 type Env struct {
@@ -29,6 +30,7 @@ type Env struct {
 
 func (e *Env) newPair() *Pair {
 	return &Pair{
+		env:   e,
 		impl:  newProc(e.self, []string{"worker"}, []string{"GOMEMLIMIT=2GiB", "VERIF_WORKER_SCRATCH=" + e.scratch}),
 		model: newProc(e.driver, nil, nil),
 	}
@@ -41,6 +43,9 @@ func (p *Pair) close() {
 
 // Impl runs an op on the real code.
 func (p *Pair) Impl(op Op, timeout time.Duration) Result {
+	if strings.HasPrefix(op.Name, "cli.") {
+		return implCLI(p.env, op)
+	}
 	line, err := p.impl.call(op.Line(), timeout)
 	if err != nil {
 		var d *died
